@@ -19,8 +19,8 @@ import json
 import os
 import re
 
-THEOREMS = ["IstioModel.C14.MonitorTheorems", "IstioModel.C14.KernelTheorems"]
-KERNEL_STREAMS = ("domains", "clusters", "answer")
+THEOREMS = ["IstioModel.C14.MonitorTheorems", "IstioModel.C14.KernelTheorems", "IstioModel.C14.ListenerConflictTheorems"]
+KERNEL_STREAMS = ("domains", "clusters", "answer", "lconflict")
 
 
 # Findings of this check that are NOT fixed in /repo (see notes/C14.md, section Findings). The coordinator
@@ -100,6 +100,16 @@ def verdict_class(impl_line):
 CHUNK = 200  # cases per harness process: every FakeDiscoveryServer leaves goroutines and krt debug state behind
 
 
+def harness(ctx, *args, **kw):
+    """ctx.harness, rebuilding the binary if it vanished (scratch-worktree binaries under harness/bin are shared
+    with other checks' clean-ups)."""
+    exe = getattr(ctx, "bin_path", None)
+    if exe and not os.path.exists(exe):
+        ctx.log("harness binary vanished, rebuilding")
+        ctx.go_build()
+    return ctx.harness(*args, **kw)
+
+
 def exec_snapshot(ctx, ops_path, tag, retry=True):
     """Run the real code on an ops file, CHUNK cases per process. Survives a crash of the harness PROCESS (a panic
     in a goroutine of the control plane cannot be recovered): the case during which the process died is re-run
@@ -119,7 +129,7 @@ def exec_snapshot(ctx, ops_path, tag, retry=True):
         for p in (impl_p, impl_p + ".snap"):
             if os.path.exists(p):
                 os.remove(p)
-        rc, log = ctx.harness("exec", "snapshot", part, impl_p, timeout=3000)
+        rc, log = harness(ctx, "exec", "snapshot", part, impl_p, timeout=3000)
         impl = ctx.read_lines(impl_p) if os.path.exists(impl_p) else []
         snap = ctx.read_lines(impl_p + ".snap") if os.path.exists(impl_p + ".snap") else []
         n = min(len(impl), len(snap))
@@ -188,7 +198,7 @@ def shrink_case(ctx, case_lines, cls, tag):
     if not cls.startswith("crash process"):
         if os.path.exists(dst):
             os.remove(dst)
-        rc, log = ctx.harness("shrink", "snapshot", src, dst, cls, timeout=900)
+        rc, log = harness(ctx, "shrink", "snapshot", src, dst, cls, timeout=900)
         if rc == 0 and os.path.exists(dst):
             return ctx.read_lines(dst)
         return case_lines
@@ -411,7 +421,8 @@ def run(ctx):
     if not ctx.go_build():
         return
     for k in KERNEL_STREAMS:
-        ctx.diff_stream(k, ctx.n(1500, 30000), oracle=kernel_oracle)
+        # lconflict: the whole finite table (15 incoming protocols x 2 binds x (no entry + 15 x 2 entries)), every run
+        ctx.diff_stream(k, 15 if k == "lconflict" else ctx.n(1500, 30000), oracle=kernel_oracle)
         g = os.path.join(ctx.work, "%s.gen.ops" % k)
         if os.path.exists(g):
             out = g + ".verdict"
